@@ -589,6 +589,157 @@ func vC09Scenario(name string, seed uint64) string {
 			return "close-hangs/" + strings.Join(vParked(), ",")
 		}
 		return w.aftermath(time.Since(start), bound)
+	case "slow-handler-longer-than-the-write-timeout":
+		// C05: a handler on the client which takes longer than the client's write timeout: its reply is still sent, every
+		// time (the time the handler takes is not the time the write takes)
+		skey, ckey := vGenKey(r), vGenKey(r)
+		ls := vStartLibServer(skey, []ed25519.PublicKey{ckey.Pub}, true)
+		defer vStop(ls.S, 5*time.Second)
+		cc, err := vDialLib(context.Background(), ls.Addr, ckey, skey.Pub, WithBlock(), WithWriteTimeout(150*time.Millisecond))
+		if err != nil {
+			return "setup"
+		}
+		impl := &vImpl{}
+		cc.RegisterService(vDesc(), impl)
+		if !vWaitUntil(3*time.Second, func() bool { return ls.S.OpenConnections() == 1 }) {
+			return "setup"
+		}
+		for i := 0; i < 8; i++ {
+			ctx, cn := context.WithTimeout(context.Background(), 3*time.Second)
+			out := &message.Response{}
+			err := ls.S.Invoke(peer.NewCallContext(ctx, ckey.Static()), "Echo", vAppMsg(fmt.Sprint("slow", i), nil, "sleep:350"), out)
+			cn()
+			if err != nil || out.CallId != fmt.Sprint("slow", i) {
+				ran := len(impl.peek())
+				vClose(cc, 3*time.Second)
+				return fmt.Sprintf("request-not-answered-although-its-handler-ran/call %d: %v (handlers run: %d, state %s)", i, err, ran, cc.GetState())
+			}
+		}
+		if !vClose(cc, 6*time.Second) {
+			return "close-hangs/" + strings.Join(vParked(), ",")
+		}
+		return ""
+	case "many-requests-at-once":
+		// C08: a READY connection reads and serves what its peer sends, however many requests are being handled at the
+		// moment: 48 requests whose handlers are all still running - every one of them has been started, a 49th frame (the
+		// response to a call of the client) is still taken, and all are answered once the handlers return
+		skey, ckey := vGenKey(r), vGenKey(r)
+		rs := vStartRawServer(skey, ckey.Pub)
+		defer rs.Close()
+		cc, err := vDialLib(context.Background(), rs.Addr, ckey, skey.Pub, WithBlock())
+		if err != nil {
+			return "setup"
+		}
+		impl := &vImpl{hold: true}
+		cc.RegisterService(vDesc(), impl)
+		conn := <-rs.Conns
+		const nreq = 48
+		var wmu sync.Mutex
+		answered := 0
+		callReq := make(chan string, 4)
+		go func() {
+			for {
+				_, b, err := conn.ReadMessage()
+				if err != nil {
+					return
+				}
+				m := &message.Message{}
+				if proto.Unmarshal(b, m) != nil {
+					continue
+				}
+				if m.GetResponse() != nil {
+					wmu.Lock()
+					answered++
+					wmu.Unlock()
+				} else if m.GetRequest() != nil {
+					callReq <- m.GetRequest().GetCallId()
+				}
+			}
+		}()
+		write := func(b []byte) { wmu.Lock(); _ = conn.WriteMessage(websocket.BinaryMessage, b); wmu.Unlock() }
+		for i := 0; i < nreq; i++ {
+			app, _ := proto.Marshal(vAppMsg(fmt.Sprint("held", i), nil, ""))
+			write(vFrame(&message.Message{Exchange: &message.Message_Request{Request: &message.Request{Method: "Echo", CallId: fmt.Sprintf("00000000-0000-4000-8000-%012d", i), Payload: app}}}))
+		}
+		started := vWaitUntil(3*time.Second, func() bool { return len(impl.peek()) >= nreq })
+		fail := ""
+		if !started {
+			fail = fmt.Sprintf("ready-but-requests-not-read/%d-of-%d handlers started while the others run (state %s)", len(impl.peek()), nreq, cc.GetState())
+		} else {
+			// a call of the client made now is answered: the response frame is taken although 48 handlers are running
+			res := make(chan error, 1)
+			out := &message.Response{}
+			go func() {
+				ctx, cn := context.WithTimeout(context.Background(), 2*time.Second)
+				defer cn()
+				res <- cc.Invoke(ctx, "Echo", vAppMsg("mine", nil, ""), out)
+			}()
+			select {
+			case id := <-callReq:
+				app, _ := proto.Marshal(vAppMsg("mine-reply", nil, ""))
+				write(vFrame(&message.Message{Exchange: &message.Message_Response{Response: &message.Response{CallId: id, Payload: app}}}))
+			case <-time.After(2 * time.Second):
+			}
+			if err := <-res; err != nil || out.CallId != "mine-reply" {
+				fail = fmt.Sprintf("ready-but-calls-do-not-complete-while-handlers-run/%v", err)
+			}
+		}
+		impl.mu.Lock()
+		impl.hold = false
+		var toks []string
+		for k := range impl.gate {
+			toks = append(toks, k)
+		}
+		impl.mu.Unlock()
+		for _, k := range toks {
+			impl.release(k)
+		}
+		if fail == "" && !vWaitUntil(3*time.Second, func() bool { wmu.Lock(); defer wmu.Unlock(); return answered >= nreq }) {
+			wmu.Lock()
+			fail = fmt.Sprintf("requests-not-answered/%d-of-%d", answered, nreq)
+			wmu.Unlock()
+		}
+		if !vClose(cc, 6*time.Second) && fail == "" {
+			fail = "close-hangs/" + strings.Join(vParked(), ",")
+		}
+		return fail
+	case "close-after-dial-context-ended":
+		// the context given to DialWithContext ends after the connection is up; the session itself is fine. Close must
+		// still end it: the peer sees the connection end, nothing of the client is left, the state is SHUTDOWN
+		skey, ckey := vGenKey(r), vGenKey(r)
+		ls := vStartLibServer(skey, []ed25519.PublicKey{ckey.Pub}, true)
+		defer vStop(ls.S, 5*time.Second)
+		dctx, dcancel := context.WithCancel(context.Background())
+		cc, err := vDialLib(dctx, ls.Addr, ckey, skey.Pub, WithBlock())
+		if err != nil {
+			dcancel()
+			return "setup"
+		}
+		cc.RegisterService(vDesc(), &vImpl{})
+		if !vWaitUntil(3*time.Second, func() bool { return ls.S.OpenConnections() == 1 }) {
+			dcancel()
+			return "setup"
+		}
+		dcancel()
+		time.Sleep(time.Duration(20+r.Intn(150)) * time.Millisecond)
+		start := time.Now()
+		if !vClose(cc, 6*time.Second) {
+			return "close-hangs/" + strings.Join(vParked(), ",")
+		}
+		if took := time.Since(start); took > bound {
+			return fmt.Sprintf("close-exceeds-bound/%v", took)
+		}
+		if !vWaitUntil(2*time.Second, func() bool { return ls.S.OpenConnections() == 0 }) {
+			return "session-left-open-after-close"
+		}
+		time.Sleep(50 * time.Millisecond)
+		if left := vClientLeft(); len(left) > 0 {
+			return "goroutines-left-after-close/" + strings.Join(left, ",")
+		}
+		if st := cc.GetState(); st != connectivity.Shutdown {
+			return "closed-connection-reports-" + st.String()
+		}
+		return ""
 	case "peer-answers-each-call-several-times":
 		// a peer which sends several copies of every response (large ones, so that copies arrive while the caller is still
 		// decoding the first); the calls run under a context which never ends. Every call returns its reply, and Close
@@ -836,7 +987,7 @@ func vC09Scenario(name string, seed uint64) string {
 	return "unknown-scenario"
 }
 
-var vC09Names = []string{"idle-longer-than-write-timeout", "calls-in-flight", "inbound-requests-with-slow-handlers", "reconnect-in-progress", "inbound-burst", "concurrent-close", "close-right-after-dial", "write-fails-with-message-in-hand", "peer-closed-first", "close-while-call-is-being-prepared", "reconnect-after-several-failures", "close-after-dial-context-ended-and-connection-lost", "peer-answers-each-call-several-times", "close-during-a-slow-upgrade"}
+var vC09Names = []string{"idle-longer-than-write-timeout", "calls-in-flight", "inbound-requests-with-slow-handlers", "reconnect-in-progress", "inbound-burst", "concurrent-close", "close-right-after-dial", "write-fails-with-message-in-hand", "peer-closed-first", "close-while-call-is-being-prepared", "reconnect-after-several-failures", "close-after-dial-context-ended-and-connection-lost", "peer-answers-each-call-several-times", "close-during-a-slow-upgrade", "close-after-dial-context-ended"}
 
 func TestVerifC09Child(t *testing.T) {
 	spec := vChildSpec()
@@ -852,7 +1003,7 @@ func TestVerifC09Child(t *testing.T) {
 
 // C08: what a closed connection reports, with a state update in flight
 func TestVerifC08Closed(t *testing.T) {
-	vC09Run(t, []string{"state-update-in-flight", "state-while-close-waits-for-a-handler", "undecodable-frame-on-a-ready-connection", "close-after-dial-context-ended-and-connection-lost"}, "closed/", 88)
+	vC09Run(t, []string{"state-update-in-flight", "state-while-close-waits-for-a-handler", "undecodable-frame-on-a-ready-connection", "close-after-dial-context-ended-and-connection-lost", "close-after-dial-context-ended", "many-requests-at-once"}, "closed/", 88)
 }
 
 // C06: the session is lost in the gap between READY and the loop's wait for the loss
@@ -867,7 +1018,7 @@ func TestVerifDupResponses(t *testing.T) {
 
 // C05: a frame which cannot be decoded does not stop the requests which follow it from being answered
 func TestVerifC05Frames(t *testing.T) {
-	vC09Run(t, []string{"undecodable-frame-on-a-ready-connection"}, "frames/", 55)
+	vC09Run(t, []string{"undecodable-frame-on-a-ready-connection", "slow-handler-longer-than-the-write-timeout"}, "frames/", 55)
 }
 
 func TestVerifC09(t *testing.T) {
